@@ -70,6 +70,13 @@ func newSocket(s *unixsocket.Socket) *socket {
 func (s *socket) RecvMsg(e any) (msg unixsocket.Msg, err error) {
 	n, msg, err := s.Socket.RecvMsg(s.buff)
 	if err != nil {
+		if n > 0 {
+			// the message is rejected (its descriptors could not all be installed) but its
+			// payload is complete: let the stream decoder see it, it may carry the definition
+			// of a type that later messages rely on
+			s.recvBuff.Rotate(bytes.NewBuffer(s.buff[:n]))
+			s.decoder.Decode(e)
+		}
 		return msg, fmt.Errorf("recv msg: %w", err)
 	}
 	s.recvBuff.Rotate(bytes.NewBuffer(s.buff[:n]))
